@@ -14,6 +14,7 @@ package c07
 import (
 	"encoding/json"
 	"fmt"
+	"log/slog"
 	"math"
 	"net/http"
 	"net/url"
@@ -29,6 +30,7 @@ import (
 	"github.com/AdguardTeam/AdGuardHome/verifsim/env"
 	"github.com/AdguardTeam/AdGuardHome/verifsim/kernel"
 	"github.com/AdguardTeam/AdGuardHome/verifsim/qlogsim"
+	"github.com/AdguardTeam/AdGuardHome/verifsim/sched"
 	"github.com/miekg/dns"
 	"golang.org/x/net/idna"
 	"pgregory.net/rapid"
@@ -70,6 +72,13 @@ type Op struct {
 	OlderRel   bool              `json:"older_rel,omitempty"`
 	OlderIdx   int               `json:"older_idx,omitempty"`
 	OlderDelta int64             `json:"older_delta,omitempty"`
+
+	// par (mode D, see par.go): the tasks of a concurrent phase, the seed and
+	// the preemption probability of its schedule, and what is done after it.
+	Seed  uint64    `json:"seed,omitempty"`
+	Pct   int       `json:"pct,omitempty"`
+	Par   []ParTask `json:"par,omitempty"`
+	After string    `json:"after,omitempty"`
 }
 
 // Scenario is one case.
@@ -297,6 +306,22 @@ func Gen(t *rapid.T, tier string) any {
 			tickBase = now
 		case k < 80:
 			op = Op{K: "cli_ign", Cli: rapid.IntRange(0, len(clientTable)-1).Draw(t, "cli")}
+		case k >= 89 && k < 94 && !fsDown:
+			// A concurrent phase (mode D).
+			op = genPar(t, now, tickBase+((now-tickBase)/hour+1)*hour)
+			if op.Ns > budget {
+				op.Ns = int64(rapid.IntRange(1, 1000).Draw(t, "par_ns2"))
+			}
+			budget -= op.Ns
+			now += op.Ns
+			for i := range op.Par {
+				if op.Par[i].K == "tick" {
+					tickBase = now
+				}
+			}
+			if op.After == "restart" {
+				tickBase = now
+			}
 		case k < 94:
 			q := &Query{Page: rapid.SampledFrom([]int{1, 1, 2, 2, 3, 4, 5, 7, 10, 500}).Draw(t, "page")}
 			switch rapid.IntRange(0, 5).Draw(t, "q_kind") {
@@ -420,6 +445,8 @@ type run struct {
 	m  *model
 	c  *kernel.Ctx
 	op int
+	// plog is the process log of the query log (see par.go).
+	plog *parLog
 }
 
 func fmtT(ns int64) string { return time.Duration(ns - kernel.Epoch.UnixNano()).String() }
@@ -1475,6 +1502,8 @@ func (r *run) apply(op *Op) error {
 		return nil
 	case "search":
 		return r.search(op.Q)
+	case "par":
+		return r.par(op)
 	case "hostile":
 		return r.hostile(op)
 	}
@@ -1596,8 +1625,13 @@ func Run(t *testing.T, scAny any, c *kernel.Ctx) error {
 		return err
 	}
 	defer os.RemoveAll(dir)
+	sched.Init()
+	// The goroutine that Add starts for the flush-after-add is a task of a
+	// concurrent phase.
+	sched.SpawnAllow = []string{"querylog.(*queryLog).Add"}
 	return kernel.Bubble(t, func() error {
-		n := &qlogsim.Node{Dir: filepath.Join(dir, "data")}
+		plog := &parLog{}
+		n := &qlogsim.Node{Dir: filepath.Join(dir, "data"), Logger: slog.New(plog)}
 		if err := os.Mkdir(n.Dir, 0o755); err != nil {
 			return fmt.Errorf("harness: %w", err)
 		}
@@ -1608,7 +1642,7 @@ func Run(t *testing.T, scAny any, c *kernel.Ctx) error {
 		m := &model{}
 		m.conf = qlogsim.Conf{MemSize: uint(sc.MemSize), Interval: time.Duration(sc.IvlH) * time.Hour, Enabled: sc.Enabled, Anonymize: sc.Anon}
 		m.setIgnored(nil)
-		r := &run{n: n, m: m, c: c}
+		r := &run{n: n, m: m, c: c, plog: plog}
 		if err := r.open(m.conf); err != nil {
 			return err
 		}
@@ -1648,7 +1682,7 @@ func Run(t *testing.T, scAny any, c *kernel.Ctx) error {
 var Prop = &kernel.Property{
 	ID:    "C07",
 	Level: "exploration",
-	Rule: "seeded histories (rapid) of record / clock advance (1 ns .. 400 h, aimed at the hourly rotation check and at whole multiples of the interval) / explicit flush / clear / configuration change (new and legacy API, ignore list, anonymisation) / clean restart / crash (with MemSize change) / in one scenario out of four: storage faults that make the memory-to-file flush fail until healed (data directory unreachable and back, data directory wiped and recreated, name of the log file taken by a directory, writes failing with ENOSPC), injected and healed at any point / filtered searches with cursor and offset paging / hostile parameter values, against the real querylog package on tmpfs under a fake clock; " +
+	Rule: "seeded histories (rapid) of record / clock advance (1 ns .. 400 h, aimed at the hourly rotation check and at whole multiples of the interval) / explicit flush / clear / configuration change (new and legacy API, ignore list, anonymisation) / clean restart / crash (with MemSize change) / in one scenario out of four: storage faults that make the memory-to-file flush fail until healed (data directory unreachable and back, data directory wiped and recreated, name of the log file taken by a directory, writes failing with ENOSPC), injected and healed at any point / filtered searches with cursor and offset paging / hostile parameter values / concurrent phases (op par, mode D: the request path Add incl. the flush goroutine it starts, the flush body, the rotation check body, listings, a configuration update and a clear as tasks under the seeded cooperative scheduler, interleaved at every lock operation and log line), against the real querylog package on tmpfs under a fake clock; " +
 		"a case is non-trivial when >=1 entry reached a file through an observed flush and >=1 rotation, restart, crash, clear, configuration change or clock jump >= 1 h happened; distinct = distinct scenario digests",
 	Gen: Gen,
 	New: func() any { return &Scenario{} },
@@ -1661,7 +1695,8 @@ var Prop = &kernel.Property{
 	Stub: []string{"the hourly periodicRotate loop driver (body real, via VerifCheckAndRotate, same 1 h period, first check at start)", "FindClient (seeded client table)", "dnsforward's logging step (anonymise, ShouldLog, Add) re-enacted by the harness", "admin HTTP client (handlers called in-process)", "wall clock (synctest fake clock)", "configuration file (WriteDiskConfig snapshot taken at ConfigModified)"},
 	Assumptions: []string{
 		"entries are recorded at distinct instants, at least 1 ns apart: the older_than cursor is a timestamp printed with nanosecond resolution (RFC 3339 Nano) and means strictly older, so entries sharing a timestamp cannot be separated by it",
-		"mode A: the driver waits for quiescence after every Add, so no record is submitted while a flush is pending (excluded by the statement)",
+		"outside the concurrent phases (mode A) the driver waits for quiescence after every Add, so no record is submitted while a flush is pending (excluded by the statement)",
+		"concurrent phase (mode D): the clock stands still, so the entries of one phase share an instant and are told apart by their elapsed time; the phase ends with a clear because the older_than cursor cannot separate such entries. Two overlapping operations may take effect in either order. Records submitted while a flush is pending are excluded by the statement: the ring buffer holds MemSize entries, so at most (entries in memory before the phase + entries recorded in it - MemSize) entries that were in memory may be missing, none if that number is <= 0. Preemption happens at lock operations and log lines only (not between two system calls)",
 		"file logging is always enabled; MemSize 1..50",
 		"IsFiltered is true exactly for the Filtered* reasons, as the filtering module sets it",
 		"an entry whose name or client is on the ignore list in force is not required to be returned (C08 says it must not be); a term that matches only the recorded or only the displayed (anonymised) address is not asserted either way",
@@ -1671,9 +1706,11 @@ var Prop = &kernel.Property{
 		"storage faults exist only in scenarios marked io_faults; while one is in force the entries of a batch that a flush took out of memory and could not write are gone, and entries in the files are not required to be returned (the files cannot be read); everything else, in particular every entry recorded after the fault was healed, is judged as in a fault-free run; no clear is issued while the store is broken (what becomes of the files is not stated)",
 	},
 	FaultKinds: []string{"clean_restart", "process_crash", "clock_jump", "clear", "config_change", "memsize_change", "client_ignore_toggle", "hostile_request",
-		"storage_away", "storage_wiped", "storage_isdir", "storage_full", "flush_io_error"},
+		"storage_away", "storage_wiped", "storage_isdir", "storage_full", "flush_io_error", "concurrent_phase"},
 	ProbeNames: []string{"clear_overlapping_pending_flush", "recorded", "flush_observed", "explicit_flush", "rotation_observed", "rotation_dropped_old_file", "rotation_at_exact_age", "entries_in_all_three_places",
 		"cursor_memory_to_file", "cursor_file_to_rotated", "page_ends_at_memory_boundary", "page_ends_at_file_boundary", "search_checked", "search_nonempty", "search_open_entries", "idn_search",
 		"ignored_hidden", "not_logged_ignored", "not_logged_disabled", "crash_lost_memory_entries", "legacy_conf_rejected", "hostile_rejected_4xx", "hostile_answered_200", "older_than_absent_incomplete", "scan_limit_continuation",
-		"storage_healed", "failed_flush_by_add", "failed_flush_by_flush", "failed_flush_by_shutdown", "flush_resumed_after_io_error", "file_entry_unreachable", "tick_during_storage_fault", "shutdown_during_storage_fault"},
+		"storage_healed", "failed_flush_by_add", "failed_flush_by_flush", "failed_flush_by_shutdown", "flush_resumed_after_io_error", "file_entry_unreachable", "tick_during_storage_fault", "shutdown_during_storage_fault",
+		"sched_steps", "sched_switches", "sched_spawned_flush_tasks", "par_recorded", "par_listing_checked", "par_flushes_in_phase", "par_last_add_fills_buffer", "par_add_while_flush_pending", "par_ring_overwrote_entries",
+		"par_rotation", "par_flush_then_rotation", "par_tick_on_the_hour", "par_log_works_after_phase", "par_skipped_storage_fault"},
 }
